@@ -5,8 +5,9 @@ the source says *now*.
 
 Accepted Rust subset (anything else is a translation error, reported as `translator_broken`):
   fn NAME(ARG: uN) -> uN { let mut V = E; [let mut T: uN = E;] (V = E; | V ^= E; | T = E;)* V }
-  E ::= E ^ E | E >> n | E << n | !E | (E) | E.wrapping_add(E) | E.wrapping_sub(E) | E.wrapping_mul(E)
-        | ident | integer literal [uN]          (Rust precedence: unary > method > shifts > ^)
+  E ::= E ^ E | E >> n | E << n | !E | (E) | E.wrapping_add(E) | E.wrapping_sub(E) | E.wrapping_mul(E) | E.wrapping_shl(n) | E.wrapping_shr(n)
+        | ident | integer literal (decimal or 0x.., `_` separators) [uN]          (Rust precedence: unary > method > shifts > ^)
+  `let [mut] V = E;` for the main variable again (shadowing) counts as an assignment.
 
 Output: for every function NAME a list of *steps* (one per assignment to the main variable, with the
 temporaries assigned since the previous step inlined as `let`s) `NAME_step<i> : BitVec n → BitVec n`
@@ -17,7 +18,7 @@ import re, sys, os
 class TErr(Exception):
     pass
 
-TOK = re.compile(r"\s*(?:(\d+)(u32|u64)?|([A-Za-z_][A-Za-z_0-9]*)|(>>|<<|\^=|[\^!().,;=:{}]|->))")
+TOK = re.compile(r"\s*(?:(0x[0-9a-fA-F_]+|\d[\d_]*)(u32|u64)?|([A-Za-z_][A-Za-z_0-9]*)|(>>|<<|\^=|[\^!().,;=:{}]|->))")
 
 def tokenize(s):
     pos, out = 0, []
@@ -27,7 +28,7 @@ def tokenize(s):
         if not m:
             raise TErr("cannot tokenize at: " + s[pos:pos + 30])
         if m.group(1) is not None:
-            out.append(("num", int(m.group(1))))
+            out.append(("num", int(m.group(1).replace("_", ""), 0)))
         elif m.group(3) is not None:
             out.append(("id", m.group(3)))
         else:
@@ -78,9 +79,14 @@ class P:
             self.eat("op", "(")
             a = self.expr()
             self.eat("op", ")")
-            sym = {"wrapping_add": "+", "wrapping_sub": "-", "wrapping_mul": "*"}.get(name)
+            sym = {"wrapping_add": "+", "wrapping_sub": "-", "wrapping_mul": "*", "wrapping_shl": "<<<", "wrapping_shr": ">>>"}.get(name)
             if sym is None:
                 raise TErr("unsupported method " + name)
+            if sym in ("<<<", ">>>"):
+                mm = re.fullmatch(r"(\d+)#\d+", a)
+                if not mm or int(mm.group(1)) >= self.w:
+                    raise TErr("wrapping shift amount must be a literal below the width")
+                a = mm.group(1)
             e = "(%s %s %s)" % (e, sym, a)
         return e
     def atom(self):
@@ -101,16 +107,16 @@ class P:
         raise TErr("unexpected token %s %s" % (k, v))
 
 
-def translate_fn(name, arg, width, body):
+def translate_fn(name, arg, width, body, mut_param=False):
     # strip comments
     body = re.sub(r"//[^\n]*", "", body)
     stmts = [s.strip() for s in body.split(";")]
     tail = stmts[-1]
     stmts = [s for s in stmts[:-1] if s]
-    main = None
+    main = arg if mut_param else None   # `fn f(mut key: uN)`: the parameter itself is the running variable
     steps, pending, assigned_tmp = [], [], set()
     for s in stmts:
-        m = re.match(r"let\s+mut\s+(\w+)\s*(?::\s*u(\d+))?\s*=\s*(.*)$", s, re.S)
+        m = re.match(r"let\s+(?:mut\s+)?(\w+)\s*(?::\s*u(\d+))?\s*=\s*(.*)$", s, re.S)
         if m:
             var, w, rhs = m.group(1), m.group(2), m.group(3)
             if w and int(w) != width:
@@ -120,7 +126,7 @@ def translate_fn(name, arg, width, body):
                     raise TErr("first statement must copy the argument: " + s)
                 main = var
                 continue
-            target, op = var, "="
+            target, op = var, "="   # (a `let` of the main variable again = shadowing = assignment)
         else:
             m = re.match(r"(\w+)\s*(\^=|=)\s*(.*)$", s, re.S)
             if not m:
@@ -144,10 +150,19 @@ def translate_fn(name, arg, width, body):
         else:
             pending.append((target, e))
             assigned_tmp.add(target)
+    if tail.strip() != main:
+        # tail expression `E` instead of `key = E; key`: one more step
+        p = P(tokenize(tail), width)
+        e = p.expr()
+        if p.peek()[0] != "eof":
+            raise TErr("trailing tokens in the tail expression: " + tail)
+        for v in set(re.findall(r"\b([A-Za-z_]\w*)\b", e)):
+            if v != main and v not in assigned_tmp:
+                raise TErr("tail expression reads %s, which is not assigned in its step" % v)
+        steps.append((list(pending), e))
+        pending = []
     if pending:
         raise TErr("temporaries assigned after the last step")
-    if tail.strip() != main:
-        raise TErr("function must end with its main variable, got: " + tail)
     out = []
     for i, (lets, e) in enumerate(steps, 1):
         out.append("def %s_step%d (%s : BitVec %d) : BitVec %d :=" % (name, i, main, width, width))
@@ -166,7 +181,7 @@ def translate_fn(name, arg, width, body):
 def translate(src_path):
     src = open(src_path).read()
     src = src.split("#[cfg(test)]")[0]
-    fns = re.findall(r"pub fn (\w+)\((\w+): u(\d+)\) -> u(\d+) \{(.*?)\n\}", src, re.S)
+    fns = re.findall(r"pub fn (\w+)\((mut\s+)?(\w+): u(\d+)\) -> u(\d+) \{(.*?)\n\}", src, re.S)
     names = [f[0] for f in fns]
     need = ["int64_hash", "int64_hash_inverse", "int32_hash", "int32_hash_inverse"]
     for n in need:
@@ -175,12 +190,12 @@ def translate(src_path):
     out = ["/-! GENERATED by tools/translate_invhash.py from src/invhash.rs — do not edit. -/",
            "namespace PMH.InvHashGen", ""]
     nsteps = {}
-    for name, arg, w1, w2, body in fns:
+    for name, mutarg, arg, w1, w2, body in fns:
         if name not in need:
             continue
         if w1 != w2:
             raise TErr("argument/return width differ in " + name)
-        txt, k = translate_fn(name, arg, int(w1), body)
+        txt, k = translate_fn(name, arg, int(w1), body, mut_param=bool(mutarg))
         nsteps[name] = k
         out.append(txt)
     out.append("end PMH.InvHashGen")
